@@ -727,6 +727,106 @@ Theorem C12_prim_cbrt_rem_asis_sound_all : forall fuel bits n c e,
 Proof. exact prim_cbrt_rem_asis_sound_all. Qed.
 Print Assumptions C12_prim_cbrt_rem_asis_sound_all.
 
+(** * round 5: NO OVERSHOOT of the table + Newton estimates of the u32 / u64 roots (base/src/ring/root.rs)
+      class x monotonicity: the estimate is a step function of n whose stages are monotone once the earlier stages are
+      fixed; an interval on which every stage has equal values at both ends is checked at its ends *)
+From Dashu Require Import Int.GrlPrimRootCert Int.GrlPrimRootTotal Int.GrlPrimRootTotal64.
+
+Theorem C12_cover_sound : forall (Q : Z -> Prop) leaf split,
+  (forall lo hi, leaf lo hi = true -> forall n, lo <= n <= hi -> Q n) ->
+  forall fuel lo hi, cover leaf split fuel lo hi = true -> forall n, lo <= n <= hi -> Q n.
+Proof. exact cover_sound. Qed.
+Print Assumptions C12_cover_sound.
+
+(** one interval, any ends: equal stage values at lo and hi, s^2 <= lo, hi < (s+F)^2 => the routine answers on [lo, hi] *)
+Theorem C12_sq32_iv_sound : forall F lo hi, 0 <= F -> sq32_iv F lo hi = true -> forall n, lo <= n <= hi ->
+  forall fuel, F <= Z.of_nat fuel -> exists r, nsqrt32 fuel n = Ok r.
+Proof. exact sq32_iv_sound. Qed.
+Print Assumptions C12_sq32_iv_sound.
+
+Theorem C12_sq64_iv_sound : forall F lo hi, 0 <= F -> sq64_iv F lo hi = true -> forall n, lo <= n <= hi ->
+  forall fuel, F <= Z.of_nat fuel -> exists r, nsqrt64 fuel n = Ok r.
+Proof. exact sq64_iv_sound. Qed.
+Print Assumptions C12_sq64_iv_sound.
+
+(** EVERY normalised u32 input (finite: 3 * 2^30 resp. 7 * 2^29 values, decided through 49152 / 57344 classes): the estimate
+    never exceeds the root, nothing overflows, 2 resp. 3 corrections suffice *)
+Theorem C12_nsqrt32_total : forall n, 2 ^ 30 <= n < 2 ^ 32 -> nsqrt32 3 n = Ok (sqrt_rem_spec n).
+Proof. exact nsqrt32_total. Qed.
+Print Assumptions C12_nsqrt32_total.
+
+Theorem C12_ncbrt32_total : forall n, 2 ^ 29 <= n < 2 ^ 32 -> exists c, ncbrt32 4 n = Ok (c, n - c ^ 3) /\ cb c n.
+Proof. exact ncbrt32_total. Qed.
+Print Assumptions C12_ncbrt32_total.
+
+(** a total normalised routine makes the normalising wrapper total: any width *)
+Theorem C12_prim_sqrt_rem_total_of_norm : forall norm bits n, 2 <= bits -> 0 <= n < 2 ^ bits ->
+  (forall m, 2 ^ (bits - 2) <= m < 2 ^ bits -> exists r, norm m = Ok r) ->
+  exists r, prim_sqrt_rem norm bits n = Ok r.
+Proof. exact prim_sqrt_rem_total_of_norm. Qed.
+Print Assumptions C12_prim_sqrt_rem_total_of_norm.
+
+Theorem C12_prim_cbrt_rem_total_of_norm : forall norm bits n, 3 <= bits -> 0 <= n < 2 ^ bits ->
+  (forall m, 2 ^ (bits - 3) <= m < 2 ^ bits -> exists r, norm m = Ok r) ->
+  exists r, prim_cbrt_rem norm bits n = Ok r.
+Proof. exact prim_cbrt_rem_total_of_norm. Qed.
+Print Assumptions C12_prim_cbrt_rem_total_of_norm.
+
+(** EVERY u32 value (0 .. 2^32 - 1): sqrt_rem / cbrt_rem as written return the specified pair and never panic *)
+Theorem C12_prim_sqrt_rem_u32_total : forall n, 0 <= n < 2 ^ 32 -> prim_sqrt_rem_asis 3 32 n = Ok (sqrt_rem_spec n).
+Proof. exact prim_sqrt_rem_u32_total. Qed.
+Print Assumptions C12_prim_sqrt_rem_u32_total.
+
+Theorem C12_prim_cbrt_rem_u32_total : forall n, 0 <= n < 2 ^ 32 ->
+  exists c, prim_cbrt_rem_asis 4 32 n = Ok (c, n - c ^ 3) /\ cb c n.
+Proof. exact prim_cbrt_rem_u32_total. Qed.
+Print Assumptions C12_prim_cbrt_rem_u32_total.
+
+Theorem C12_u32_fuel_tight :
+  (exists n, prim_sqrt_rem_asis 2 32 n = OutOfFuel) /\ (exists n, prim_cbrt_rem_asis 3 32 n = OutOfFuel).
+Proof. exact u32_fuel_tight. Qed.
+Print Assumptions C12_u32_fuel_tight.
+
+Theorem C12_fix_cbrt_total_pow : forall fuel HB n c, 0 <= c -> c ^ 3 <= n -> n < HB ^ 3 -> n < (c + Z.of_nat fuel) ^ 3 ->
+  exists r, fix_cbrt fuel HB n c = Ok r.
+Proof. exact fix_cbrt_total_pow. Qed.
+Print Assumptions C12_fix_cbrt_total_pow.
+
+(** u64, per class X = n >> 32 (3 * 2^30 classes, not enumerated here): a decidable certificate of the class - the estimate at
+    the class ends and at the steps of (n - s0^2) >> 32 - gives the answer for EVERY n of the class *)
+Theorem C12_nsqrt64_class_total : forall X n, sq64_cert X = true -> X * T32 <= n < (X + 1) * T32 ->
+  nsqrt64 3 n = Ok (sqrt_rem_spec n).
+Proof. exact nsqrt64_class_total. Qed.
+Print Assumptions C12_nsqrt64_class_total.
+
+Theorem C12_ncbrt64_class_total : forall X n, 2 ^ 29 <= X < 2 ^ 32 -> cb64_cert X = true -> X * T32 <= n < (X + 1) * T32 ->
+  exists c, ncbrt64 8 n = Ok (c, n - c ^ 3) /\ cb c n.
+Proof. exact ncbrt64_class_total. Qed.
+Print Assumptions C12_ncbrt64_class_total.
+
+Theorem C12_prim_sqrt_rem_u64_class : forall n X, 0 < n < 2 ^ 64 ->
+  X = (n * 2 ^ (2 * (lzeros 64 n / 2))) / T32 -> sq64_cert X = true ->
+  prim_sqrt_rem_asis 3 64 n = Ok (sqrt_rem_spec n).
+Proof. exact prim_sqrt_rem_u64_class. Qed.
+Print Assumptions C12_prim_sqrt_rem_u64_class.
+
+(** the certificates hold on 4096 classes spread evenly over the whole normalised range (finite sample, stated) *)
+Theorem C12_sq64_sample : forallb sq64_cert (sample_classes (2 ^ 30) 786433 4096) = true.
+Proof. exact sq64_sample. Qed.
+Print Assumptions C12_sq64_sample.
+
+Theorem C12_cb64_sample : forallb cb64_cert (sample_classes (2 ^ 29) 917521 4096) = true.
+Proof. exact cb64_sample. Qed.
+Print Assumptions C12_cb64_sample.
+
+Theorem C12_sq64_edges : forallb sq64_cert (edge_classes 32 96 25) = true.
+Proof. exact sq64_edges. Qed.
+Print Assumptions C12_sq64_edges.
+
+Theorem C12_cb64_edges : forallb cb64_cert (edge_classes 16 48 25 ++ edge_classes 8 8 28) = true.
+Proof. exact cb64_edges. Qed.
+Print Assumptions C12_cb64_edges.
+
 (** * round 4: the std (libm) log2 estimator, under an explicit libm contract
       "f32::log2 of a positive binary32 is a binary32 whose two neighbours enclose the true logarithm".
       No interval tactic any more (ln 2 >= 1/2 from exp 1 <= 3): only the axioms of the real numbers. *)
@@ -808,3 +908,87 @@ Print Assumptions C12_ibig_log2_bounds_enclose.
 Theorem C12_lg_contract_inhabited : lg_contract lg_nearest.
 Proof. exact lg_nearest_ok. Qed.
 Print Assumptions C12_lg_contract_inhabited.
+
+(** * round 5: the size dispatch of gcd_ops.rs / log.rs / root_ops.rs as tables regenerated from the sources
+      (coq/gen/GrlDispatchGen.v); the hand-written dispatch = the interpreted table, for ANY kernels
+      (instantiated with C19's word-size-specific models in Int/GrlDispatchC19.v, with C12's nth_root model here) *)
+From Dashu Require Import Int.GrlDispatch Int.GrlDispatchTie.
+From DashuGen Require Import GrlDispatchGen.
+
+Theorem C12_gcd_dispatch_is_source : forall (A : Type) (k0 k1 k2 : Z -> Z -> result A) (swap : A -> A) sx sy x y,
+  gcd_dispatch k0 k1 k2 sx sy x y = run_arm k0 k1 k2 swap (lookup2 gcd_dispatch_gen sx sy) x y.
+Proof. intros A. exact (@gcd_dispatch_is_source A). Qed.
+Print Assumptions C12_gcd_dispatch_is_source.
+
+(** all four ownership forms of ExtendedGcd carry the same table *)
+Theorem C12_gcd_ext_dispatch_is_source : forall (A : Type) (k0 k1 k2 : Z -> Z -> result A) (swap : A -> A) sx sy x y,
+  gcd_ext_dispatch k0 k1 k2 swap sx sy x y = run_arm k0 k1 k2 swap (lookup2 gcd_ext_dispatch_gen_0 sx sy) x y /\
+  gcd_ext_dispatch k0 k1 k2 swap sx sy x y = run_arm k0 k1 k2 swap (lookup2 gcd_ext_dispatch_gen_1 sx sy) x y /\
+  gcd_ext_dispatch k0 k1 k2 swap sx sy x y = run_arm k0 k1 k2 swap (lookup2 gcd_ext_dispatch_gen_2 sx sy) x y /\
+  gcd_ext_dispatch k0 k1 k2 swap sx sy x y = run_arm k0 k1 k2 swap (lookup2 gcd_ext_dispatch_gen_3 sx sy) x y.
+Proof. intros A. exact (@gcd_ext_dispatch_is_source A). Qed.
+Print Assumptions C12_gcd_ext_dispatch_is_source.
+
+Theorem C12_log_dispatch_is_source : forall (A : Type) (k_dword k_wordbase k_large : Z -> Z -> result A) (zero one : result A)
+  (is_word : Z -> bool) sx sb x b,
+  log_dispatch k_dword k_wordbase k_large zero one is_word sx sb x b =
+  run_log_arm k_dword k_wordbase k_large zero one is_word (lookup2 log_dispatch_gen sx sb) x b.
+Proof. intros A. exact (@log_dispatch_is_source A). Qed.
+Print Assumptions C12_log_dispatch_is_source.
+
+Theorem C12_nth_dispatch_is_source : forall (A : Type) (self sqrt rest : result A) n,
+  nth_dispatch self sqrt rest n = run_nth self sqrt rest (lookup_n nth_root_dispatch_gen n).
+Proof. intros A. exact (@nth_dispatch_is_source A). Qed.
+Print Assumptions C12_nth_dispatch_is_source.
+
+Theorem C12_nth_root_asis_is_table : forall fuel x n,
+  nth_root_asis fuel x n =
+  run_nth (Ok x) (Ok (Z.sqrt x))
+          (if bit_len x =? 0 then Ok 0 else if bit_len x <=? n then Ok 1 else newton_root fuel x n)
+          (lookup_n nth_root_dispatch_gen n).
+Proof. exact nth_root_asis_is_table. Qed.
+Print Assumptions C12_nth_root_asis_is_table.
+
+(** * round 5: the cofactor BUFFER of the Euclidean step of gcd_ext_in_place (lengths t0_len / t1_len / q_lo.len(); the lines
+      repaired by 1be8c4c, finding F09): for EVERY relation of t0_len and qt1_len the repaired update is t0 + q*t1 with the
+      exact new length, and it answers whenever the sum fits the buffer and the carry fits a word *)
+From Dashu Require Import Int.GrlExtBuf Int.GrlExtBufProof.
+
+Theorem C12_ebuf_step_correct : forall w, 1 <= w -> forall cap lhs_len T0 t0_len T1 t1_len q_lo qlo_len q_top T' len',
+  0 <= t0_len -> 0 <= t1_len -> 0 <= qlo_len ->
+  0 <= T0 < (2 ^ w) ^ t0_len -> 0 <= T1 < (2 ^ w) ^ t1_len -> 0 <= q_lo < (2 ^ w) ^ qlo_len -> 0 <= q_top < 2 ^ w ->
+  ebuf_step true w cap lhs_len T0 t0_len T1 t1_len q_lo qlo_len q_top = Ok (T', len') ->
+  T' = T0 + (q_top * (2 ^ w) ^ qlo_len + q_lo) * T1 /\ T' < (2 ^ w) ^ len' /\ (0 < len' -> (2 ^ w) ^ (len' - 1) <= T') /\ 0 <= len'.
+Proof. exact ebuf_step_correct. Qed.
+Print Assumptions C12_ebuf_step_correct.
+
+Theorem C12_ebuf_step_total : forall w, 1 <= w -> forall cap lhs_len T0 t0_len T1 t1_len q_lo qlo_len q_top,
+  0 <= t0_len -> 0 <= t1_len -> 0 <= qlo_len ->
+  0 <= T0 < (2 ^ w) ^ t0_len -> 0 <= T1 < (2 ^ w) ^ t1_len -> 0 <= q_lo < (2 ^ w) ^ qlo_len -> 0 <= q_top < 2 ^ w ->
+  qlo_len + t1_len <= cap ->
+  T0 + (q_top * (2 ^ w) ^ qlo_len + q_lo) * T1 < (2 ^ w) ^ cap ->
+  (0 < q_top -> qlo_len + t1_len <= lhs_len /\
+                T0 mod (2 ^ w) ^ (qlo_len + t1_len) + (q_top * (2 ^ w) ^ qlo_len + q_lo) * T1 < 2 ^ w * (2 ^ w) ^ (qlo_len + t1_len)) ->
+  exists r, ebuf_step true w cap lhs_len T0 t0_len T1 t1_len q_lo qlo_len q_top = Ok r.
+Proof. exact ebuf_step_total. Qed.
+Print Assumptions C12_ebuf_step_total.
+
+(** t0 as long as q*t1, one word longer (the F09 shape), three words longer with a rippling carry; the code before the repair *)
+Theorem C12_ebuf_step_len_relations :
+  ebuf_step true 64 4 3 (2 ^ 64 - 1) 1 (2 ^ 64 - 1) 1 0 0 1 = Ok (2 ^ 65 - 2, 2) /\
+  ebuf_step true 64 4 3 (2 ^ 128 - 1) 2 (2 ^ 64 - 1) 1 0 0 1 = Ok (2 ^ 128 + 2 ^ 64 - 2, 3) /\
+  ebuf_step true 64 5 4 (2 ^ 256 - 1) 4 1 1 0 0 1 = Ok (2 ^ 256, 5).
+Proof. exact ebuf_step_len_relations. Qed.
+Print Assumptions C12_ebuf_step_len_relations.
+
+Theorem C12_ebuf_step_prefix_refuted :
+  ebuf_step false 64 4 3 (2 ^ 128 - 1) 2 (2 ^ 64 - 1) 1 0 0 1 = Ok (2 ^ 64 - 2 + 2 ^ 64 + 0, 2) /\
+  ebuf_step false 64 3 2 (2 ^ 64) 2 1 1 0 0 1 = Ok (1 + 2 ^ 64, 1).
+Proof. exact ebuf_step_prefix_refuted. Qed.
+Print Assumptions C12_ebuf_step_prefix_refuted.
+
+(** * round 5: the source text of the table + Newton routines the models were transcribed from = the text re-read on this run *)
+From Dashu Require Import Int.GrlRootSrcTie.
+Theorem C12_root_newton_src_pinned : root_newton_src = root_newton_src_gen.
+Proof. exact root_newton_src_pinned. Qed.
+Print Assumptions C12_root_newton_src_pinned.
